@@ -572,9 +572,12 @@ def run_native(script: str, payload: dict, timeout=120) -> dict:
     env['VERIF_REPO'] = REPO
     env['PYTHONPATH'] = VERIF
     env['PYTHONDONTWRITEBYTECODE'] = '1'
-    p = subprocess.run(
-        [VENV_PY, '-c', script], input=json.dumps(payload), capture_output=True, text=True, timeout=timeout, env=env, cwd=VERIF
-    )
+    try:
+        p = subprocess.run(
+            [VENV_PY, '-c', script], input=json.dumps(payload), capture_output=True, text=True, timeout=timeout, env=env, cwd=VERIF
+        )
+    except subprocess.TimeoutExpired:
+        return {'error': 'replay host timed out after %ds' % timeout, 'confirmed': False}
     if p.returncode != 0:
         return {'error': 'replay host failed', 'stderr': p.stderr[-2000:], 'stdout': p.stdout[-500:]}
     try:
